@@ -17,3 +17,25 @@ const unsigned char *tu_rs28_mul(unsigned *rows, unsigned *cols)
 	return &of_gf_mul_table[0][0];
 }
 void tu_rs28_addmul1(unsigned char *dst, unsigned char *src, unsigned char c, int sz) { of_addmul1(dst, src, c, sz); }
+
+/* codec activity on this copy of the file: codes created, every repair symbol built, decoded from the k source packets
+ * themselves (the decoding matrix is then the identity) and from mixes of source and repair packets; returns the number of
+ * decodes that did not give the sources back */
+unsigned tu_rs28_activity(unsigned seed)
+{
+	unsigned bad = 0; unsigned long long x = seed * 2654435761ULL + 12345;
+	for (unsigned k = 24; k >= 1; k--) for (unsigned r = 7; r >= 1 && r <= 7; r -= 2) {        /* descending sizes, and for each code the identity decode last */
+		unsigned n = k + r; void *code = of_rs_new(k, n); if (!code) { bad++; continue; }
+		unsigned char src[24][16], rep[8][16], work[24][16]; void *sp[24], *pk[24]; int idx[24];
+		for (unsigned i = 0; i < k; i++) { for (unsigned b = 0; b < 16; b++) { x = x * 6364136223846793005ULL + 1442695040888963407ULL; src[i][b] = (unsigned char)(x >> 33); } sp[i] = src[i]; }
+		for (unsigned j = 0; j < r; j++) of_rs_encode(code, sp, rep[j], (int)(k + j), 16);
+		for (int round = 2; round >= 0; round--) {
+			for (unsigned i = 0; i < k; i++) { memcpy(work[i], src[i], 16); pk[i] = work[i]; idx[i] = (int)i; }
+			if (round) for (unsigned j = 0; j < r && j < k; j++) { unsigned pos = (unsigned)((x >> (8 + j)) % k); x = x * 6364136223846793005ULL + 1; if (idx[pos] == (int)pos) { memcpy(work[pos], rep[j], 16); idx[pos] = (int)(k + j); } }
+			if (of_rs_decode(code, pk, idx, 16) != OF_STATUS_OK) { bad++; continue; }
+			for (unsigned i = 0; i < k; i++) if (memcmp(pk[i], src[i], 16)) { bad++; break; }
+		}
+		of_rs_free(code);
+	}
+	return bad;
+}
